@@ -4,6 +4,7 @@ import Abmarl.Model.GridDriver
 import Abmarl.Model.TrainerDriver
 import Abmarl.Model.BuildersDriver
 import Abmarl.Model.AdaptersDriver
+import Abmarl.Model.TwinDriver
 import Abmarl.Model.MaskDriver
 /-! Line-protocol driver: one request per line on stdin, one reply per line on stdout. -/
 open Abmarl
@@ -20,6 +21,9 @@ def dispatch (line : String) : String :=
       | "mask" => MaskDriver.handle args
       | "gym" => AdaptersDriver.handleGym args
       | "ospiel" => AdaptersDriver.handleOS args
+      | "twin" => TwinDriver.handleTwin args
+      | "ostwin" => TwinDriver.handleOSTwin args
+      | "gymabs" => TwinDriver.handleGymABS args
       | "ping" => some (.list (.atom "pong" :: args))
       | _ => none
     match r with
